@@ -59,6 +59,37 @@ CLAIMED = {
                      "regression-from-rows reference oracle and metamorphic runs",
         "design": "DESIGN.md section 5, C06",
     },
+    "C17": {
+        "text": "Coq theorems (props/C17.v): scaling law at the statistics level (means x k, variances x k^2 => means, effect, "
+                "absolute interval x k; p-value, statistic, relative effect and interval unchanged) lifted to rows for every "
+                "metric kind with covariates through the CUPED regression form; common factor of numerator and denominator "
+                "cancels; swapping roles with mirrored alternative negates effect and statistic, mirrors the interval, "
+                "exchanges the means and keeps the p-value",
+        "note": "trusted: Coq kernel, stdlib real axioms, translator, laws L2/L5/L6 for the swap; floats outside the theorem",
+        "technique": "Coq proof over translator-generated model; exact differential; metamorphic oracle on the public API",
+        "design": "DESIGN.md section 5, C17",
+    },
+    "C19": {
+        "text": "Coq theorems (props/C19.v) over check_scalar/auto_check regenerated from utils.py into a universe of Python "
+                "values (every int, every float incl. NaN/+-inf, bool, str, sequences, None): for every standard option and "
+                "every value, accepted <-> in the documented domain (model/C19_spec.v); accepted values are returned "
+                "unchanged; NaN rejected; plus the exhaustive probe grid over every entry point (constructors, set_config, "
+                "config_context, multiplicity functions, data generators) against the same domain predicate",
+        "note": "trusted: Coq kernel (no axioms), translator tools/utils2coq.py, lib/PyVal reading of isinstance/comparison "
+                "semantics, harness encoding of probe values; constructors other than auto_check are covered by the grid only",
+        "technique": "Coq proof by case analysis over a Python-value universe on a translator-generated model; exhaustive grid differential",
+        "design": "DESIGN.md section 5, C19",
+    },
+    "C13": {
+        "text": "Coq theorems (props/C13.v) over the hand model of config.py + constructor parameter resolution: config_context "
+                "restores the configuration on every exit path for arbitrary nested bodies, set_config is atomic, get_config "
+                "returns a copy, explicit arguments win / defaults come from the configuration in force, later history never "
+                "alters constructed metrics, the configuration stays valid (link to C19)",
+        "note": "trusted: Coq kernel (no axioms), hand model tied only by the history differential (exact states, exception "
+                "kinds, metric attributes), contextmanager/finally semantics as modelled; mutable-value aliasing not modelled",
+        "technique": "Coq proof (nested induction over operation trees) on a hand state-machine model; random-history differential",
+        "design": "DESIGN.md section 5, C13",
+    },
 }
 REASONS = {}
 
